@@ -61,11 +61,11 @@ func c11catch(g *eng.Graph, id string, defs ...c11ev) eng.Frag {
 func c11task(g *eng.Graph, id string) eng.Frag { return g.Task("task", id, "") }
 
 var (
-	sigA = c11ev{"signal", "a"}
-	msgA = c11ev{"message", "a"} // same name, other kind: must not match a signal definition
+	sigA = c11ev{"signal", "ord:a"} // names are opaque strings: `ord:a` and `inv:a` (sigC) share what follows the colon and nothing else
+	msgA = c11ev{"message", "ord:a"} // same name, other kind: must not match a signal definition
 	msgB = c11ev{"message", "b"}
 	sigB = c11ev{"signal", "b"}
-	sigC = c11ev{"signal", "c"}
+	sigC = c11ev{"signal", "inv:a"}
 	sigZ = c11ev{"signal", "zz"} // matches nothing anywhere
 )
 
